@@ -124,9 +124,15 @@ class Ctx:
         return base + (1 if self.shard < extra else 0)
 
     def set_budget(self, seconds: float) -> None:
-        self.deadline = self.t0 + seconds
+        """Wall-clock budget for the phase that starts now.  The first iteration of a phase always runs, so a loaded
+        machine shrinks the workload but never empties it (an empty phase would be reported as inconclusive)."""
+        self.deadline = time.time() + seconds
+        self._polls = 0
 
     def out_of_time(self) -> bool:
+        self._polls = getattr(self, "_polls", 0) + 1
+        if self._polls == 1:
+            return False
         if self.deadline is not None and time.time() > self.deadline:
             self.res.budget_exhausted = True
             return True
